@@ -6,7 +6,8 @@ A case is (progs, sched): progs[0] is the loop thread's program, the others are 
   [1]                   one turn of `while self._run_loop: signal = self._active_queue.get(); self._process_signal(signal)`
   [2, o]                loop.register_signal_source(o)
   [3, sid, prio, src?]  loop.execute_new_loop(Sig)       (up to the entry of the nested _mainloop, which the subclass stubs out)
-  [4]                   loop.close_loop()
+  [4]                   loop.close_loop(), then (a separate schedule point) the return of the handler that called it:
+                        the closed level's _mainloop re-arms _run_loop
   [5]                   loop.force_quit()
 sched is a list of thread ids.  Every thread may perform its next *shared access* only when the
 schedule names it; a turn of a thread whose access would block (lock held, get() on an empty queue) or
@@ -428,9 +429,14 @@ class World:
                     except IndexError:
                         state["indexerror"] = state.get("indexerror", 0) + 1
                     else:
-                        # the closed level's _mainloop returns: `if not self._force_quit: self._run_loop = True`
+                        # close_loop() has returned with _run_loop = False; the handler that called it is still
+                        # running: a schedule point of its own (Conc.v PCRet), every other thread may run here.
+                        # Then the handler returns and the closed level's _mainloop does
+                        # `if not self._force_quit: self._run_loop = True`
+                        s.gate()
                         if not loop._force_quit:
                             loop._run_loop = True
+                        s.rec(27)
                 elif kind == 5:
                     loop.force_quit()
                 state["at"] = k + 1
